@@ -6,6 +6,8 @@ import re
 import struct
 import warnings
 
+import zlib
+
 import numpy as np
 
 from common import hexb
@@ -143,6 +145,8 @@ def ds_sexp(spec):
 
 def as_array(b):
     dt = np_dtype(b["dt"])
+    if b["dt"] == "U" and zlib.crc32(repr((b["name"], b["data"][:4])).encode()) % 3 == 0:
+        dt = "S8"       # the same strings held as bytes (what files and pydap's own parsers deliver); a function of the case
     return np.array(b["data"], dtype=dt).reshape(b["shape"]) if b["shape"] else np.array(b["data"][0], dtype=dt)
 
 
@@ -289,7 +293,7 @@ def leaf(idpath, b, sl=None):
     if sl:
         arr = arr[sl]
     return {"id": ".".join(idpath), "type": DTYPES[b["dt"]], "shape": list(arr.shape),
-            "values": [str(x) if b["dt"] == "U" else int(x) for x in arr.reshape(-1)]}
+            "values": [(x.decode("ascii") if isinstance(x, bytes) else str(x)) if b["dt"] == "U" else int(x) for x in arr.reshape(-1)]}
 
 
 def gen_valid_ce(rng, spec, allow_sel=True):
